@@ -27,7 +27,8 @@ CLAIM = {
             "doc = doc \"+\" IDENT compile, have no certificate, and exhaust any fuel (known findings, reproduced on the real "
             "code in child processes on every run). Model tied to the code by the differential run of C29's pipeline under a watchdog.",
     "note": "Trusted: Coq kernel, extraction, harness, tpl/scanner. 'Terminates' is shown for the model's recursion (fuel = call depth "
-            "incl. loop iterations); scanner termination is C15/C32's subject. RetProcs are not modelled.",
+            "incl. loop iterations); scanner termination is C15/C32's subject. RetProcs (result rewriters) and the Dyn-error paths are "
+            "modelled in Model/TplRp.v (runp), tied by the same differential run; see Props/C28.v for what is proved about runp.",
 }
 
 # deterministic witnesses: (grammar, input, what)
@@ -77,7 +78,25 @@ def run(ctx):
             sent = sent[:12]      # backtracking over nested right recursion is exponential in the input length on both sides
             cases.append((gtext, tplm.sentence_text(sent).encode()))
             cats.append("seeded")
+    # result rewriters (RetProcs) and the runtime-error (Dyn) paths of every combinator: a compiled grammar WITH
+    # rewriters must terminate as well
+    nrp0 = len(cases)
+    for g, t, rps in tplm.retproc_family():
+        cases.append((g, t, rps))
+        cats.append("retproc")
+    for _ in range(ctx.n(150, 8000)):
+        rules = tplm.gen_grammar(rng, recursive=False)
+        gtext = tplm.grammar_text(rules).encode()
+        rps = tplm.gen_retprocs(rng, rules)
+        for _ in range(2):
+            sent = tplm.derive(rng, ("ref", rules[0][0]), rules)
+            if rng.below(2):
+                sent = tplm.mutate_sentence(rng, sent)
+            cases.append((gtext, tplm.sentence_text(sent[:12]).encode(), rps))
+            cats.append("retproc-seeded")
+    nrp = len(cases) - nrp0
     res = tplm.run_pipeline(ctx, cases, watchdog="5s", always_run=range(nfam))
+    cases = [(c[0], c[1], c[2] if len(c) > 2 else "-") for c in cases]
     if res is None:
         return
     mlines, mout, rows = res
@@ -87,7 +106,7 @@ def run(ctx):
     def nonterm(r):     # the model's FUEL corresponds to a hang / stack overflow of the implementation
         return "FUEL" if (r.startswith("HANG") or r.startswith("CRASH")) else r
     ctx.diff_lines("match_doc~Compiler.Match(termination, compile verdict)",
-                   ["%s | %s" % (cases[i][0].decode("utf-8", "replace").replace("\n", " ; "), cases[i][1].decode("utf-8", "replace")) for i in idx],
+                   ["%s | %s | %s" % (cases[i][0].decode("utf-8", "replace").replace("\n", " ; "), cases[i][1].decode("utf-8", "replace"), cases[i][2]) for i in idx],
                    "\n".join(nonterm(rows[i][0]) for i in idx), "\n".join(mout[i] for i in idx))
     fam_verdicts = {}
     for i in range(nfam):
@@ -109,9 +128,9 @@ def run(ctx):
             stats["compile-or-parse-error"] += 1
         r = rows[i]
         if r[0].startswith("HANG") or r[0].startswith("CRASH") or (len(r) > 1 and r[1] != "ok"):
-            g, t = cases[i]
-            ctx.fail(tplm.key_of(g, t), "Match(%r, %r): %s %s" % (g.decode("utf-8", "replace"), t.decode("utf-8", "replace"), r[0][:80], r[1] if len(r) > 1 else ""),
-                     {"grammar": g.decode("utf-8", "replace"), "input": t.decode("utf-8", "replace"), "impl": r[0], "model": mout[i], "productive": flags[i]})
+            g, t, rps = cases[i]
+            ctx.fail(tplm.key_of(g, t, rps), "Match(%r, %r, retprocs=%s): %s %s" % (g.decode("utf-8", "replace"), t.decode("utf-8", "replace"), rps, r[0][:80], r[1] if len(r) > 1 else ""),
+                     {"grammar": g.decode("utf-8", "replace"), "input": t.decode("utf-8", "replace"), "retprocs": rps, "impl": r[0], "model": mout[i], "productive": flags[i]})
     # the deterministic witnesses: model must say FUEL; the implementation is run once each, alone
     impl = ctx.harness("tplm")
     model = ctx.model("tplm")
@@ -131,10 +150,13 @@ def run(ctx):
         if ires == "FUEL":
             ctx.fail(tplm.key_of(gb, tb), "Match(%r, %r) does not terminate: %s" % (g, t, what),
                      {"grammar": g, "input": t, "impl": first or "crash rc=%d" % rc, "what": what})
-    ctx.cover(evaluations=len(idx) + len(WITNESSES), distinct_nontrivial=len(set(cases[i] for i in idx if flags[i] in ("P", "N"))),
+    ctx.cover(evaluations=len(idx) + len(WITNESSES), distinct_nontrivial=len(set(cases[i] for i in idx if flags[i] in ("P", "N"))), retproc_pairs=nrp,
               samples=[{"grammar": cases[i][0].decode("utf-8", "replace"), "input": cases[i][1].decode("utf-8", "replace"),
                         "impl": (rows[i] or ["(not run)"])[0][:120], "certificate": flags[i]} for i in (0, 5, 100, len(cases) - 1)] + wit[:2],
-              rule="hidden-left-recursion family (%d pairs, run on the implementation whatever the model says): 20 nullable constructs "
+              rule="RetProc family (%d pairs): a rewriter on a rule (reject the literal 0 with a runtime/Dyn error or an ordinary error, wrap, "
+                   "identity; optionally a second rewriter on doc) in 13 repetition/sequence/choice/list/adjoin/nesting contexts x 14 inputs "
+                   "(rejected element first/second/later/last/nested/absent) + seeded grammars with random rewriters; "
+                   "hidden-left-recursion family (%d pairs, run on the implementation whatever the model says): 20 nullable constructs "
                    "(?R, *R, \"\", SPACE, choices with the nullable alternative first/middle/last, nested choices, nullable sequences) x 8 "
                    "templates (recursive alternative first/middle/last, reached from another rule, indirect through a choice / a "
                    "sequence, choice-in-sequence-in-choice, two nullable items) x 7 inputs (x, empty, wrong token, matching ones) + "
@@ -146,7 +168,9 @@ def run(ctx):
                    "exceeds its fuel bound (no productivity certificate: nullable repetition body or left recursion not crossing a "
                    "Choice) — that class is represented by %d deterministic witnesses run once each in a child process "
                    "(700ms watchdog, 4GB) and listed as known findings; %d compile-time rejections are checked to stay rejections. "
-                   "non-trivial = distinct compiled pair." % (nfam, len(WITNESSES), len(REJECTED)),
+                   "non-trivial = distinct compiled pair." % (nrp, nfam, len(WITNESSES), len(REJECTED)),
               termination_classes=stats, witnesses=wit, hidden_leftrec_family={"pairs": nfam, "impl_outcomes": fam_verdicts})
     ctx.trust("modelled, not verified: tpl/matcher/match.go (hand-written Gallina model tied by differential run)")
-    ctx.assume("no RetProcs", "Choice matchers have at least one option")
+    ctx.assume("RetProcs are drawn from the family {identity, wrap, reject-literal with a Dyn error, reject-literal with a plain error}; "
+               "a rewriter that panics with a string while the remaining input is empty is outside it (Var.Match's recover indexes src[0])",
+               "Choice matchers have at least one option")
